@@ -80,8 +80,57 @@ func drvAfter(op string) {
 	}
 }
 
-func (c *simConn) Prepare(q string) (driver.Stmt, error) { return c.c.Prepare(q) }
-func (c *simConn) Close() error                          { return c.c.Close() }
+// Prepare: the unchanged repository never prepares a statement (database/sql hands its queries to the driver directly), so
+// this seam has no occurrences on it; code that does prepare - once, lazily, per connection - meets faults here too,
+// and its statements' executions pass the same seams as direct ones.
+func (c *simConn) Prepare(q string) (driver.Stmt, error) {
+	if err := mainFault("Prepare", ""); err != nil {
+		return nil, err
+	}
+	if k := drvSeam("Prepare"); k != "" {
+		return nil, injected(k)
+	}
+	st, err := c.c.Prepare(q)
+	drvAfter("Prepare")
+	if err != nil {
+		return nil, err
+	}
+	return &simStmt{st: st, c: c}, nil
+}
+
+type simStmt struct {
+	st driver.Stmt
+	c  *simConn
+}
+
+func (s *simStmt) Close() error  { return s.st.Close() }
+func (s *simStmt) NumInput() int { return s.st.NumInput() }
+func (s *simStmt) Exec(args []driver.Value) (driver.Result, error) {
+	if k := drvSeam("Exec"); k != "" {
+		return nil, injected(k)
+	}
+	r, err := s.st.Exec(args) //nolint:staticcheck // the legacy interface is what database/sql falls back to
+	drvAfter("Exec")
+	return r, err
+}
+func (s *simStmt) Query(args []driver.Value) (driver.Rows, error) {
+	if k := drvSeam("Query"); k != "" {
+		return nil, injected(k)
+	}
+	r, err := s.st.Query(args) //nolint:staticcheck
+	drvAfter("Query")
+	if err != nil {
+		return nil, err
+	}
+	arg := ""
+	if len(args) > 0 {
+		if v, ok := args[0].(string); ok {
+			arg = v
+		}
+	}
+	return &simRows{r: r, arg: arg, inTx: s.c.inTx}, nil
+}
+func (c *simConn) Close() error { return c.c.Close() }
 func (c *simConn) Begin() (driver.Tx, error) {
 	return c.BeginTx(context.Background(), driver.TxOptions{})
 }
